@@ -12,9 +12,49 @@ def nontrivial(req, obs):
     return len(f) > 3 and f[3].count(";") >= 1
 
 
+# The witness search of tools/vlib.py (after a model disagreement / broken obligation without a failing input) first calls
+# SPEC.search and then starts three more harness runs on other seeds *at the tier of the check*: at thorough that was three
+# more ~5 min runs (the 1344 s of the seed-1 soak).  `search` marks the search phase and `harness_args` then caps those
+# runs at 300 progen + 300 wide programs each (~20 s), so a thorough check that has to search stays under ~10 min.
+_PHASE = {"search": False}
+TARGETS = ["dx", "vk", "vkba", "msl"]
+
+
+def harness_args(tier, seed):
+    return ["--n", "300"] if _PHASE["search"] else []
+
+
+def search(ctx):
+    """targeted candidates: every disagreeing wide / select request again on every target and in every selection mode
+    (whole file, each pipeline by name, a missing name, no-pipeline): if the disagreement hides an independence
+    violation the harness's own oracle (whole == by name == alone) shows it on one of these."""
+    _PHASE["search"] = True
+    out, seen = [], set()
+    for req, _obs, _mobs in ctx.disagreements[:40]:
+        f = req.split("\t")
+        if f[0] == "C17.wide" and len(f) == 7:
+            names = [it.split(" ")[1] for it in f[4].split(" | ") if it.startswith("P ") and len(it.split(" ")) > 1]
+            modes = ["all", "nopipeline", "name=Nope"] + ["name=" + n for n in dict.fromkeys(names)]
+            for t in TARGETS:
+                for m in modes:
+                    r = "\t".join([f[0], t, m] + f[3:])
+                    if r not in seen:
+                        seen.add(r)
+                        out.append(r)
+        elif f[0] == "C17.select" and len(f) == 6:
+            names = [x.split(":")[0].rstrip("!") for x in f[3].split(";") if x]
+            for t in TARGETS:
+                for m in ["all", "nopipeline", "name=Nope"] + ["name=" + n for n in dict.fromkeys(names)]:
+                    r = "\t".join([f[0], t, m] + f[3:])
+                    if r not in seen:
+                        seen.add(r)
+                        out.append(r)
+    return out[:1500]
+
+
 SPEC = {
     "id": "C17",
-    "gens": ["CompileTables", "PipelineTables"],
+    "gens": ["CompileTables", "PipelineTables", "Reserved"],
     "lean_modules": ["RsslVerif.Thm.C17"],
     "theorems": [T + n for n in [
         "loop_shape_as_modelled", "pipelines_reads_covered", "one_per_pipeline_in_order",
@@ -23,14 +63,19 @@ SPEC = {
         "Typer.typer_shape_as_modelled", "Typer.typer_context_uses_covered", "Typer.typer_tables_sane",
         "Typer.registry_ignores_pipelines", "Typer.typeCheck_pipelines_map", "Typer.typeCheck_names_nodup",
         "Typer.typeCheck_delete_others", "Typer.independent_of_other_pipelines_file",
-        "Typer.whole_file_one_result_per_block", "Typer.front_error_independent_of_mode"]],
+        "Typer.whole_file_one_result_per_block", "Typer.front_error_independent_of_mode",
+        "Typer.reported_entry_name_ignores_pipelines", "Typer.reported_entry_names_distinct"]],
     "harness": "c17",
     "nontrivial": nontrivial,
+    "harness_args": harness_args,
+    "search": search,
     "rule": "(1) progen shader files (0-4 pipelines: compute, vertex+pixel, mesh+pixel, task+mesh; shared and private entry "
             "points, shared resources, helper call graphs, interleaved layout) x {dx, vk, vk+buffer-address, msl} x {all, an "
             "existing name, unknown name, no-pipeline}; (2) self-contained 'wide' programs (harness/src/c17/wgen.rs: 21 resource "
             "kinds, 9 entry signature shapes, every pipeline state property and enum value, items in a random order compatible "
-            "with use-before-definition, prefix / case-variant pipeline names, ~50 % with 1-2 of 25 odd edits: entry defined "
+            "with use-before-definition, prefix / case-variant pipeline names, ~40 % with 1-4 more functions named like an entry "
+            "point or helper (overload, inside a namespace, method, declared only, the generated candidate name itself; before "
+            "and after the blocks), ~50 % with 1-2 of 25 odd edits: entry defined "
             "after the block, overloads, declarations, templates, methods, intrinsic names, duplicate names / properties, bad "
             "stage combinations, bad values, items under an API define, syntax errors ...) x one or two targets x {all, first / "
             "middle / last name, near-miss and inactive names, no-pipeline} x {API define on/off, include file, layout "
@@ -51,7 +96,10 @@ SPEC = {
                   "function of (registry, selected pipeline). The loop's shape, select_pipeline, the default-set read, every "
                   "textual reader of Module.pipelines, 21 exact-text fingerprints of the typer skeleton, its property / enum "
                   "tables and every way pipelines.rs touches the typer context are re-extracted from the source on each run "
-                  "and are obligations; the claim that build_pipeline depends only on the selected pipeline is carried by the "
+                  "and are obligations; (c) the entry name in the HLSL stage report is the leaf name of the whole-module name "
+                  "map (C15's model of NameMap::build composed with the registry; reserved words re-extracted): proved to be "
+                  "the same with any other Pipeline blocks deleted and never shared by two functions of one namespace; "
+                  "the claim that build_pipeline depends only on the selected pipeline is carried by the "
                   "type of the model's build parameter, by the reader inventory, and by the metamorphic run on the real compiler.",
     "trusted_base": [
         "Lean 4.33 kernel; axioms propext / Classical.choice / Quot.sound only",
@@ -63,6 +111,10 @@ SPEC = {
         "modelling assumption: build_pipeline reads the pipeline list only through the selected index "
         "(inventory + metamorphic correspondence; not a theorem about the Rust code)",
         "modelling assumption: evaluating a property value (parse_expr + evaluate_constexpr) does not register functions",
+        "Model/PipelineNames.lean + Model/Names.lean (C15's model of NameMap::build, proved there) give the reported HLSL entry "
+        "name; Driver/C17.lean `othersOf` lists the non-function symbols of a wide program by hand (preamble structs / globals, "
+        "method structs, resources, statics); Gen/Reserved.lean (tools/gens/c15.py) = RESERVED_NAMES of hlsl/src/names.rs; "
+        "tied by the C17.wide correspondence run (generator adds same-named functions to ~40 % of the programs)",
     ],
     "assumptions": ["HashMap iteration order does not influence outputs (C07)"],
 }
